@@ -430,13 +430,14 @@ def assign(m, roots, path, value, route):
 
 def ref_path(r):
     steps = []
+    r0 = r
     while not isinstance(r, Ref):
         if isinstance(r, ItemRef):
             steps.append(ek(r._key))
         elif isinstance(r, AttrRef):
             steps.append(r._key)
         else:
-            return ["$expr", str(r)]
+            return ["$expr", str(r0)]       # an attribute / item of an expression's value: named by its full printed form
         r = r._owner
     return [r._key] + steps[::-1]
 
